@@ -6,6 +6,7 @@ mod conn;
 mod hand;
 mod meta;
 mod mi;
+mod tr;
 mod sess;
 mod util;
 mod wire;
@@ -18,6 +19,7 @@ fn run_line(prop: &str, args: &[&str]) -> String {
         "C03" => meta::run03(args),
         "C04" => meta::run04(args),
         "C05" | "C17" => mi::run(args),
+        "C18" => tr::run18(args),
         "C06" => conn::run(args),
         "C08" | "C09" | "C10" | "C11" | "C20" | "C01" => hand::run(args),
         "C07" => wire::run(args),
@@ -36,6 +38,7 @@ fn gen(prop: &str, rng: &mut Rng, n: usize) -> Vec<String> {
         "C04" => meta::gen04(rng, n),
         "C05" => mi::gen05(rng, n),
         "C17" => mi::gen17(rng, n),
+        "C18" => tr::gen18(rng, n, std::env::args().nth(5).map(|t| t == "thorough").unwrap_or(false)),
         "C06" => conn::gen(rng, n),
         "C08" | "C09" | "C10" | "C11" | "C20" | "C01" => hand::gen(rng, n, prop),
         "C07" => wire::gen(rng, n),
